@@ -1507,7 +1507,11 @@ func evmGenBody0(r *Rng, self int, depth int, s evmSetup) []evmInstr {
 		case k < 27:
 			body = append(body, evmInstr{Op: "log"})
 		case k < 34:
-			body = append(body, evmInstr{Op: "balance", Addr: r.Intn(5)})
+			ba := r.Intn(5)
+			if r.Chance(20) {
+				ba = []int{aBonded, aNotBonded, aDistr, aEvm, aFeeColl, aEscrow, aNew0, aNew0 + 2}[r.Intn(8)]
+			}
+			body = append(body, evmInstr{Op: "balance", Addr: ba})
 		case k < 62 && depth < 3:
 			t := []int{aC1, aC2, aC3, aP, aO}[r.Intn(5)]
 			if evmSdPct > 10 && r.Chance(50) {
@@ -1519,8 +1523,14 @@ func evmGenBody0(r *Rng, self int, depth int, s evmSetup) []evmInstr {
 			if t >= evmNActors || t < 0 { // self may be a created contract
 				t = aC1
 			}
+			modAcc := r.Chance(7)
+			if modAcc {
+				// a module account (or the escrow account) as the target of a zero-value call: it gets loaded into
+				// the cache, nothing else; a later precompile call may move coins into or out of it
+				t = []int{aBonded, aNotBonded, aDistr, aEvm, aFeeColl, aEscrow}[r.Intn(6)]
+			}
 			ins := evmInstr{Op: "call", Addr: t, Catch: r.Chance(75), Record: r.Chance(40)}
-			if r.Chance(45) {
+			if r.Chance(45) && !(modAcc && r.Chance(95)) {
 				ins.Value = fmt.Sprint(1 + r.Intn(50))
 				if evmRecv != "" && evmRecv != "0" && r.Chance(30) {
 					ins.Value = evmRecv
